@@ -691,9 +691,17 @@ impl Creds {
 pub fn init_mechanism_is(init: &SaslInit, c: &Creds) -> (r: bool) { unimplemented!() }
 /// a value drawn from the random number generator by the call that is running now
 pub uninterp spec fn fresh_nonce(n: Seq<u8>) -> bool;
-/// auth::scram::generate_nonce (`rand::rng().random()`)
-#[verifier::external_body]
-pub fn generate_nonce() -> (r: [u8; 32]) ensures fresh_nonce(r@) { unimplemented!() }
+//@@ trusted the random source (`rand::rng().random()`) is a stand-in: a value drawn AS 32 OCTETS is a fresh nonce (fresh_nonce: 256 bits from the thread-local CSPRNG); a value drawn as one octet, or anything computed from fewer drawn octets, is not provably one
+pub struct ThreadRng {}
+pub mod rand { pub fn rng() -> super::ThreadRng { super::ThreadRng {} } }
+pub trait Drawn: Sized { spec fn well_drawn(self) -> bool; fn draw() -> (r: Self) ensures r.well_drawn(); }
+impl Drawn for [u8; 32] { open spec fn well_drawn(self) -> bool { fresh_nonce(self@) } #[verifier::external_body] fn draw() -> (r: Self) { unimplemented!() } }
+impl Drawn for u8 { open spec fn well_drawn(self) -> bool { true } #[verifier::external_body] fn draw() -> (r: Self) { unimplemented!() } }
+impl ThreadRng { pub fn random<T: Drawn>(&mut self) -> (r: T) ensures r.well_drawn() { T::draw() } }
+//@@ fn file=fe2o3-amqp/src/auth/scram/mod.rs name=generate_nonce
+//@@ spec
+    ensures fresh_nonce(r@),         // [C19.scram.nonce-is-32-drawn-octets] every nonce (the listener's and the client's) is 32 octets drawn from the random source for this exchange: a nonce with less entropy (one octet repeated, a counter) comes round again, and a recorded client-first / client-final pair then authenticates a peer that never knew the password
+//@@ end
 /// the base64 text of a nonce is as fresh as the nonce
 pub uninterp spec fn fresh_text(s: Seq<char>) -> bool;
 #[verifier::external_body]
